@@ -15,6 +15,7 @@ RULE = {"C15": "generated StatefulAutonomous subclasses (1-6 states: chains, loo
                "+-1us of an expiry; 1/64 s grid cases are judged strictly), scripted next_state()/done(), durations and "
                "registered variables edited on the dashboard between periods.  Non-trivial = >=2 periods or a re-entered "
                "state, and >=1 expiry hop; distinct = hash of (definition, script, concrete history)."}
+RULE["C15"] += '  Also: states spread over up to three class levels, underscore-named states, a second mode with the same state names constructed / run in the same process.'
 REQUIRED = {"C15": {"expiry-hop": 500, "expiry-finish": 100, "re-entry-by-next_state": 100, "second-period": 300,
                     "late-first-iteration": 100, "dashboard-edited-duration": 100, "registered-var-read": 100,
                     "in-state-done": 100, "post-end-iteration": 300, "exact-landing-strict": 100, "tie-accepted": 20,
